@@ -113,6 +113,17 @@ class Report:
         self.queries = 0
         self.known = {e['key']: e for e in known_findings(prop) if e.get('status') == 'known'}
 
+    def match_known(self, key):
+        """exact key, or a known entry whose key starts with 're:' (a regular expression identifying the failing
+        call-site family, e.g. target + missing feature flag + ISA class)"""
+        import re
+        if key in self.known:
+            return key
+        for k in self.known:
+            if k.startswith('re:') and re.search(k[3:], key):
+                return k
+        return None
+
     def assume(self, *a):
         for x in a:
             if x not in self.assumptions:
@@ -133,10 +144,11 @@ class Report:
 
     def violated(self, key, what, replay=None, name=None, **kw):
         """A reproduced violation. key identifies the failing obligation for known-findings matching."""
-        if key in self.known:
-            if key not in self.known_hit:
-                self.known_hit.append(key)
-                print('KNOWN-FINDING: property=%s %s' % (self.prop, self.known[key]['what']), flush=True)
+        kk = self.match_known(key)
+        if kk is not None:
+            if kk not in self.known_hit:
+                self.known_hit.append(kk)
+                print('KNOWN-FINDING: property=%s %s' % (self.prop, self.known[kk]['what']), flush=True)
             self.jobs.append(dict(name=name or key, verdict='known', key=key, **kw))
             return False
         path = replay or self.write_replay(key, dict(key=key, what=what))
